@@ -123,7 +123,7 @@ TPick == /\ Is("pick") /\ phase = "run" /\ Free
               /\ \/ UNCHANGED dev
                  \/ i < Len(issued) /\ dev' = dev \cup {"LostCancel"}
          /\ cur' = IF Ev.item = -1 THEN None          \* no current line and nothing forces an update: blank preview, no command
-                   ELSE [v |-> Ev.version, pid |-> 0, started |-> FALSE, exited |-> FALSE, kills |-> 0, ctx |-> FALSE]
+                   ELSE [v |-> Ev.version, pid |-> 0, started |-> FALSE, exited |-> FALSE, kills |-> 0, kimm |-> FALSE, ctx |-> FALSE]
          /\ pvSeq' = Ev.seq
          /\ UNCHANGED <<sid, texts, tmpls, kinds, expectSig, nsent, nkill, lastDisp, started, quitSig, phase>>
 
@@ -135,7 +135,7 @@ TStart == /\ Is("cstart") /\ phase = "run" /\ InFlight /\ ~cur.started /\ cur.v 
 
 (* the watcher leaves its select after one receipt *)
 TKill == /\ Is("kill") /\ phase = "run" /\ InFlight /\ cur.started /\ cur.v = Ev.version /\ cur.kills = 0 /\ ~cur.ctx
-         /\ cur' = [cur EXCEPT !.kills = 1] /\ nkill' = nkill + 1
+         /\ cur' = [cur EXCEPT !.kills = 1, !.kimm = Ev.immediately] /\ nkill' = nkill + 1
          /\ UNCHANGED <<sid, texts, tmpls, kinds, issued, expectSig, reqs, nsent, lastDisp, started, pvSeq, quitSig, dev, phase>>
 (* cancel() comes after killPreview() on the exit path: a watcher can see ctx.Done only after the kill was attempted *)
 TCtx == /\ Is("ctxdone") /\ phase = "run" /\ InFlight /\ cur.started /\ cur.v = Ev.version /\ cur.kills = 0 /\ ~cur.ctx
@@ -227,12 +227,14 @@ TQuiet == /\ Is("quiet") /\ phase = "run"
 
 (* End of the session: none survives.  A survivor is explained only by a kill that was dropped (LostKillAtExit), or  *)
 (* one that was never attempted / taken by the watcher but not carried out before the process was gone                *)
-(* (ExitBeforeKill).                                                                                                  *)
+(* (ExitBeforeKill).  The pv.kill hook sits BEFORE util.KillCommand: an IMMEDIATE kill (only killPreview() on the     *)
+(* exit path sends those) may be logged and still not carried out when the process image disappears.  A logged        *)
+(* delayed-cancel kill of a superseded command (fzf not exiting) followed by a surviving group is NOT explained.      *)
 TExit == /\ Is("exit") /\ phase = "run"
          /\ \/ Ev.survivors = <<>> /\ UNCHANGED dev
             \/ /\ Ev.survivors # <<>> /\ InFlight /\ cur.started /\ Ev.survivors = <<cur.pid>> /\ Ev.overlaps = 0
                /\ \/ quitSig = "dropped" /\ "LostKillAtExit" \in dev /\ UNCHANGED dev
-                  \/ quitSig # "dropped" /\ (cur.kills = 0 \/ quitSig = "none") /\ dev' = dev \cup {"ExitBeforeKill"}
+                  \/ quitSig # "dropped" /\ (cur.kills = 0 \/ cur.kimm \/ quitSig = "none") /\ dev' = dev \cup {"ExitBeforeKill"}
          /\ phase' = "exited"
          /\ UNCHANGED <<sid, texts, tmpls, kinds, issued, expectSig, reqs, cur, nsent, nkill, lastDisp, started, pvSeq, quitSig>>
 
